@@ -314,3 +314,40 @@ Proof.
   destruct (w_q w) as [|r q']; [reflexivity|]. destruct r as [|c r']; [reflexivity|].
   destruct (c =? RESPONSE_ABORTED); reflexivity.
 Qed.
+
+(* ---- ReadableStream.readinto(b), cap = len(b) >= 0 ---- *)
+Section Eq2.
+  Context {S : Type} (peer : S -> frame -> S * list frame).
+
+  Definition rs_readinto_from_src (rf : nat) (cap : Z) (w : world) (st : rstream) : world * rstream * res (list Z) :=
+    let sk rl := src_rs_readinto (zlen (rs_pending st)) cap rl false 0 in
+    let '(read7, _, _, _) := sk 0 in
+    if read7 then
+      let '(w1, st1, r) := rs_read peer rf w st in
+      match r with
+      | Ok d =>
+          let '(_, count, copied, _) := sk (zlen d) in
+          (w1, set_pending (skipn (Z.to_nat count) d) st1, Ok (firstn (Z.to_nat copied) d))
+      | _ => (w1, st1, r)
+      end
+    else
+      let '(_, count, copied, _) := sk 0 in
+      (w, set_pending (skipn (Z.to_nat count) (rs_pending st)) st, Ok (firstn (Z.to_nat copied) (rs_pending st))).
+
+  Theorem src_rs_readinto_eq rf cap (w : world) st :
+    0 <= cap -> rs_readinto peer rf cap w st = rs_readinto_from_src rf cap w st.
+  Proof.
+    intros Hc. unfold rs_readinto, rs_readinto_from_src, src_rs_readinto.
+    assert (cap <? 0 = false) as -> by lia.
+    destruct (rs_pending st) as [|x p] eqn:Hp.
+    - change (zlen (@nil Z) =? 0) with true. cbv iota beta.
+      destruct (rs_read peer rf w st) as [[w1 st1] [d|k|c]]; reflexivity.
+    - assert (zlen (x :: p) =? 0 = false) as -> by (unfold zlen; cbn [length]; lia).
+      reflexivity.
+  Qed.
+
+  (* the length of _pending the source leaves is the model's *)
+  Lemma src_rs_readinto_plen cap (d : list Z) : 0 <= cap ->
+    zlen (skipn (Z.to_nat (Z.min cap (zlen d))) d) = zlen d - Z.min cap (zlen d).
+  Proof. intros Hc. unfold zlen. rewrite skipn_length. lia. Qed.
+End Eq2.
